@@ -148,68 +148,7 @@ def run(fx, tier):
         v.check(ok, 'R-DOM', 'async_sender::operator():requeue [%s]' % f.tu, 'a failed batch is re-inserted at the front of the queue',
                 key='C06:R-DOM:requeue-front', where=f.file)
 
-    # ------------------------------------------------------------------ R-CGRAPH do_write
-    for f in fx.functions(cls='async_sender', name='do_write'):
-        v.saw(f)
-        pushes = []
-        inserts = []
-        buf_push = []
-        loops = []
-        for b, i, l, x in f.elements():
-            x = f.resolve({'k': 'elem', 'b': b, 'i': i})
-            if isinstance(x, dict) and x.get('k') == 'call' and 'obj' in x:
-                o = strip(x['obj'])
-                tgt = o.get('n') if isinstance(o, dict) else None
-                if callee_name(x) in ('push_back', 'emplace_back') and tgt == 'write_queue':
-                    pushes.append((b, l))
-                elif callee_name(x) in ('insert', 'push_front', 'emplace') and tgt in ('write_queue', 'buffers'):
-                    inserts.append((b, l, tgt))
-                elif callee_name(x) in ('push_back', 'emplace_back') and tgt == 'buffers':
-                    src = origin(f, x['args'][0])
-                    buf_push.append(contains(src, lambda n: is_call(n, 'buffer')))
-        v.check(not inserts and len(pushes) >= 2, 'R-CGRAPH', 'async_sender::do_write:append-only [%s]' % f.tu,
-                'the batch and the buffer sequence are built by appending only (%d appends, %d other insertions)' % (len(pushes), len(inserts)),
-                key='C06:R-CGRAPH:do_write:append-only', where=f.file)
-        # the selection loop is a plain range-for over _write_queue without early exit
-        rf = [b for b in f.blocks if f.blocks[b].term and f.blocks[b].term.get('cls') == 'CXXForRangeStmt']
-        sel = None
-        for b in rf:
-            # loop over _write_queue: its __range init mentions the member
-            pass
-        ranges = []
-        for b, i, l, x in f.elements():
-            x = f.resolve({'k': 'elem', 'b': b, 'i': i})
-            if isinstance(x, dict) and x.get('k') == 'decls':
-                for d in x['ds']:
-                    if str(d.get('n', '')).startswith('__range'):
-                        if contains(d.get('init'), lambda n: n.get('k') == 'mem' and n.get('n') == '_write_queue'):
-                            ranges.append('queue')
-                        elif contains(d.get('init'), lambda n: n.get('k') == 'ref' and n.get('n') == 'write_queue'):
-                            ranges.append('batch')
-        early = False
-        for b in rf:
-            body = f.blocks[b].succ[0]
-            # any return / break inside the loop body region reachable before the back edge
-            seen, st = set(), [body]
-            while st:
-                s = st.pop()
-                if s is None or s in seen or s == b:
-                    continue
-                seen.add(s)
-                for e in f.blocks[s].elems:
-                    if isinstance(e, dict) and e.get('k') == 'ret':
-                        early = True
-                if f.exit in f.succs(s):
-                    early = True
-                st.extend(f.succs(s))
-        v.check(ranges.count('queue') == 1 and ranges.count('batch') == 1 and not early and all(buf_push) and buf_push,
-                'R-CGRAPH', 'async_sender::do_write:single-pass [%s]' % f.tu,
-                'one forward pass over the queue selects the batch, one forward pass over the batch builds the buffers '
-                '(loops: %s, early exit: %s)' % (ranges, early), key='C06:R-CGRAPH:do_write:single-pass', where=f.file)
-        incs = [x for _, _, _, x in f.elements() if _writes_field(f.resolve(x), '_quota') in ('++', '+=', '=')]
-        v.check(not incs, 'R-CGRAPH', 'async_sender::do_write:quota-monotone [%s]' % f.tu,
-                'the quota never grows inside the pass, so a later throttled request cannot overtake an earlier skipped one',
-                key='C06:R-CGRAPH:do_write:quota-grows', where=f.file)
+    do_write_shape_rule(fx, v, 'C06')
     # ------------------------------------------------------------------ R-PAIR: one stream write in flight
     # Order on the wire is the order of the batches only if batches never overlap: the _write_in_progress flag is a
     # two-state typestate (idle / writing) threaded through do_write(), the write completion and resend().
@@ -364,3 +303,70 @@ def _other(x):
     if isinstance(c, dict) and c.get('k') == 'ref':
         return c.get('n')
     return None
+
+
+def do_write_shape_rule(fx, v, prop='C06'):
+    """shape of the batch builder (shared with C12: a packet that is not throttled - e.g. PINGREQ - is never held back
+    behind a throttled one that waits for quota)"""
+    # ------------------------------------------------------------------ R-CGRAPH do_write
+    for f in fx.functions(cls='async_sender', name='do_write'):
+        v.saw(f)
+        pushes = []
+        inserts = []
+        buf_push = []
+        loops = []
+        for b, i, l, x in f.elements():
+            x = f.resolve({'k': 'elem', 'b': b, 'i': i})
+            if isinstance(x, dict) and x.get('k') == 'call' and 'obj' in x:
+                o = strip(x['obj'])
+                tgt = o.get('n') if isinstance(o, dict) else None
+                if callee_name(x) in ('push_back', 'emplace_back') and tgt == 'write_queue':
+                    pushes.append((b, l))
+                elif callee_name(x) in ('insert', 'push_front', 'emplace') and tgt in ('write_queue', 'buffers'):
+                    inserts.append((b, l, tgt))
+                elif callee_name(x) in ('push_back', 'emplace_back') and tgt == 'buffers':
+                    src = origin(f, x['args'][0])
+                    buf_push.append(contains(src, lambda n: is_call(n, 'buffer')))
+        v.check(not inserts and len(pushes) >= 2, 'R-CGRAPH', 'async_sender::do_write:append-only [%s]' % f.tu,
+                'the batch and the buffer sequence are built by appending only (%d appends, %d other insertions)' % (len(pushes), len(inserts)),
+                key=prop + ':R-CGRAPH:do_write:append-only', where=f.file)
+        # the selection loop is a plain range-for over _write_queue without early exit
+        rf = [b for b in f.blocks if f.blocks[b].term and f.blocks[b].term.get('cls') == 'CXXForRangeStmt']
+        sel = None
+        for b in rf:
+            # loop over _write_queue: its __range init mentions the member
+            pass
+        ranges = []
+        for b, i, l, x in f.elements():
+            x = f.resolve({'k': 'elem', 'b': b, 'i': i})
+            if isinstance(x, dict) and x.get('k') == 'decls':
+                for d in x['ds']:
+                    if str(d.get('n', '')).startswith('__range'):
+                        if contains(d.get('init'), lambda n: n.get('k') == 'mem' and n.get('n') == '_write_queue'):
+                            ranges.append('queue')
+                        elif contains(d.get('init'), lambda n: n.get('k') == 'ref' and n.get('n') == 'write_queue'):
+                            ranges.append('batch')
+        early = False
+        for b in rf:
+            body = f.blocks[b].succ[0]
+            # any return / break inside the loop body region reachable before the back edge
+            seen, st = set(), [body]
+            while st:
+                s = st.pop()
+                if s is None or s in seen or s == b:
+                    continue
+                seen.add(s)
+                for e in f.blocks[s].elems:
+                    if isinstance(e, dict) and e.get('k') == 'ret':
+                        early = True
+                if f.exit in f.succs(s):
+                    early = True
+                st.extend(f.succs(s))
+        v.check(ranges.count('queue') == 1 and ranges.count('batch') == 1 and not early and all(buf_push) and buf_push,
+                'R-CGRAPH', 'async_sender::do_write:single-pass [%s]' % f.tu,
+                'one forward pass over the queue selects the batch, one forward pass over the batch builds the buffers '
+                '(loops: %s, early exit: %s)' % (ranges, early), key=prop + ':R-CGRAPH:do_write:single-pass', where=f.file)
+        incs = [x for _, _, _, x in f.elements() if _writes_field(f.resolve(x), '_quota') in ('++', '+=', '=')]
+        v.check(not incs, 'R-CGRAPH', 'async_sender::do_write:quota-monotone [%s]' % f.tu,
+                'the quota never grows inside the pass, so a later throttled request cannot overtake an earlier skipped one',
+                key=prop + ':R-CGRAPH:do_write:quota-grows', where=f.file)
